@@ -446,6 +446,11 @@ def execute(plan, ctx, want_trace=False):
     harness_fail = [r for r in results if r is None or r[0] != 'ok']
     if harness_fail:
         raise core.HarnessError('client thread failed: %r' % (harness_fail[0],))
+    if S.aborted:
+        # the run hit the scheduler's step cap (opcode-level tracing of long histories): from that point on it was not
+        # scheduled as planned, so it is discarded - counted, never judged
+        return {'log': {'aborted': True}, 'probes': {'run_discarded_at_step_cap': 1}, 'faults': {}, 'steps': S.total_events,
+                'mismatches': [], 'nontrivial': False, 'sig': 'aborted', 'sets': {}, 'digest': core.digest(['aborted', plan['seed']])}
 
     # ---- reach measures
     for (tid, ev, nxt), loc in zip(S.trace, S.locs):
